@@ -53,6 +53,12 @@ def validate(seed: str):
                 shutil.copy(REPO / n, tmp / n)
         (tmp / 'seeded').mkdir()
         shutil.copytree(sd, tmp / 'seeded' / seed)
+        # demos written by the sub-agents may name their (now removed) worktree: point them at the scratch tree
+        for df in (tmp / 'seeded' / seed).glob('demo.*'):
+            txt = df.read_text()
+            for pref in (f'/tmp/w2_{pid}', f'/tmp/wt_{pid}'):
+                txt = txt.replace(pref, str(tmp))
+            df.write_text(txt)
         env = dict(os.environ, PYTHONPATH=str(tmp / 'src'), PYTHONDONTWRITEBYTECODE='1')
         dn = demo_file(sd)
         runner = [PY] if dn and dn.endswith('.py') else ['bash']
